@@ -490,6 +490,93 @@ def check_v1_opcodes(model, rep):
     rep.ob('R19.5', reader.key, reader.where(), ok, 'arithmetic opcodes evaluate through the operator of the same name' if ok else 'arithmetic opcodes no longer evaluate through operator.__<op>__(left, right)', statement='reader arithmetic')
 
 
+def check_v1_scopes(model, rep):
+    """R19.6 (v1) scope delimiter discipline.  parse_subexpression stops at ANY of the tokens | EOF _ ) ] } > , - which one it
+    stopped at is for the caller to verify.  Every function that obtains a parsed scope (directly, through a wrapper that returns it,
+    or through the parse_item callback of parse_comma_separated) must, on every path from that call to its own return, assert the
+    delimiter with _consume_assert_equal(<token>); a function that instead returns the scope is a wrapper and passes the obligation
+    to its callers.  The module-level entry `parse` cannot be a wrapper: its delimiter is the end of the string."""
+    mod = model.module('expression_v1')
+    funcs = [f for f in model.functions.values() if f.module is mod and not isinstance(f.node, ast.Lambda)]
+    SCOPE = {'parse_subexpression'}
+    # the stop-token loop must still be there (otherwise the premise of the rule is gone)
+    ps = model.func('expression_v1:_ExpressionParser.parse_subexpression')
+    stops = [n for n in ast.walk(ps.node) if isinstance(n, ast.While) and '_next_non_whitespace.type not in' in src(n.test)]
+    if len(stops) != 1 or "'EOF'" not in src(stops[0].test):
+        raise AnalysisError('parse_subexpression: the stop-token loop was not recognised')
+
+    def events_of(f, scope_names):
+        def on_stmt(s_, st):
+            evs = []
+            for c in sorted((c for c in ast.walk(s_) if isinstance(c, ast.Call)), key=lambda c: (c.lineno, c.col_offset)):
+                m = method_name(c)
+                if m in scope_names or (m == 'parse_item' and f.name == 'parse_comma_separated'):
+                    evs.append(Event('SCOPE', s_, m))
+                elif m == '_consume_assert_equal' and c.args:
+                    evs.append(Event('DELIM', s_, src(c.args[0])))
+            # within one statement the call order is the evaluation order for the idioms in use
+            return evs
+        return PathEnumerator(f.node, on_stmt=on_stmt, unroll=2).paths()
+
+    # functions that hand the parsed scope on to their caller (confirmed by reading; one line of reason each)
+    WRAPPERS = {
+        'parse_subexpression_cast': 'tries the omitted-indices reading first and returns the scope unchanged; every caller asserts the delimiter',
+        'parse_substitution': 'the right-hand side of `arg = value`; only used as parse_item of parse_comma_separated, which asserts `,` or `)`',
+    }
+    wrappers = {}
+    for name in WRAPPERS:
+        fs = [f for f in funcs if f.name == name and f.cls is not None and f.cls.name == '_ExpressionParser']
+        if len(fs) != 1:
+            raise AnalysisError(f'R19.6: wrapper {name} not found')
+        wrappers[name] = fs[0]
+    names = SCOPE | set(wrappers)
+    verdicts = {}
+    for f in funcs:
+        if not any(isinstance(c, ast.Call) and (method_name(c) in names or (method_name(c) == 'parse_item' and f.name == 'parse_comma_separated')) for c in ast.walk(f.node)):
+            continue
+        if f.name == 'parse_subexpression' and f.cls is not None:
+            continue    # the scope parser itself (its recursion goes through parse_term ... parse_var, which are checked)
+        open_paths = []
+        npaths = 0
+        for p in events_of(f, names):
+            if p.end not in ('return', 'fall'):
+                continue
+            npaths += 1
+            pending = None
+            for e in p.events:
+                if e.kind == 'SCOPE':
+                    if pending is not None:
+                        break
+                    pending = e
+                elif e.kind == 'DELIM':
+                    pending = None
+                elif e.kind in ('fail', 'except'):
+                    pending = None    # the attempt raised and was abandoned (parse() rewinds the token index and starts over)
+            if pending is not None:
+                open_paths.append(pending)
+        verdicts[f.key] = (f, npaths, open_paths)
+    nsites = 0
+    for key, (f, npaths, open_paths) in sorted(verdicts.items()):
+        nsites += 1
+        if f.name in wrappers:
+            rep.ob('R19.6', f.key, f.where(), True, f'{f.name} returns the parsed scope to its caller ({WRAPPERS[f.name]}): the delimiter obligation is checked at its call sites', statement='scope-wrapper')
+            continue
+        ok = not open_paths
+        rep.ob('R19.6', f.key, f.where(open_paths[0].node) if open_paths else f.where(), ok,
+               f'on all {npaths} returning paths the delimiter of every parsed scope is asserted (_consume_assert_equal) after the scope was parsed' if ok else
+               f'`{stmt_text(open_paths[0].node)[:70]}` parses a scope and the function returns without asserting at which delimiter the scope ended: parse_subexpression stops at any of | EOF _ ) ] }} > , '
+               'so whatever follows the first such token is silently ignored', statement='scope-delimiter-asserted')
+    # partial(self.<scope parser>) may only be handed to parse_comma_separated as parse_item
+    for f in funcs:
+        for c in ast.walk(f.node):
+            if isinstance(c, ast.Call) and src(c.func) == 'functools.partial' and c.args and method_name(ast.Call(func=c.args[0], args=[], keywords=[])) in (SCOPE | set(wrappers)):
+                parent_ok = any(isinstance(pc, ast.Call) and method_name(pc) == 'parse_comma_separated' and any(k.arg == 'parse_item' and k.value is c for k in pc.keywords) for pc in ast.walk(f.node))
+                rep.ob('R19.6', f.key, f.where(c), parent_ok, 'a scope parser is passed as callback only to parse_comma_separated (which asserts `,` or the end token after each item)' if parent_ok else
+                       f'`{src(c)[:60]}` hands a scope parser to something other than parse_comma_separated: nobody asserts the delimiter', statement='scope-callback')
+    if nsites < 5 or 'expression_v1:parse' not in verdicts:
+        raise AnalysisError(f'R19.6: only {nsites} functions obtaining scopes found, or the entry `parse` is not among them')
+
+
 def run(model, rep, tier):
     rep.explanation = (
         'R19.1 error discipline of expression_v2._Parser: every explicit raise raises ExpressionSyntaxError (or a local bound to one), every int()/float() of user text sits under a '
@@ -505,11 +592,13 @@ def run(model, rep, tier):
     rep.rule('R19.3', 'v2 tables: brackets, array operations, default functions')
     rep.rule('R19.4', 'v1: _IntermediateError never escapes; grammar methods @highlight')
     rep.rule('R19.5', 'v1: opcode writer/reader agreement')
+    rep.rule('R19.6', 'v1: the delimiter of every parsed scope is asserted by whoever obtained the scope (whole-input consumption at the entry)')
     check_v2_errors(model, rep)
     check_v2_guards(model, rep)
     check_v2_tables(model, rep)
     check_v1_escape(model, rep)
     check_v1_opcodes(model, rep)
+    check_v1_scopes(model, rep)
     rep.require('R19.1', 35)
     rep.require('R19.2', 20)
     rep.require('R19.3', 30)
